@@ -209,3 +209,43 @@ def install_signatures(R):
     for pid in ("C06", "C07"):
         R.extra_checks.setdefault(pid, []).append(ground)
     return R
+
+
+def install_sow_samples(R):
+    """Crop.sow_samples (C15, C10): results of an earlier sowing never survive the sowing of new random samples."""
+    S = R.spec
+    K = "xyzpy/gen/cropping.py:"
+
+    def no_results_listed_left(eng, fr, loc, G, i):
+        """the first i listed result files are gone, the others as when they were listed; nothing else changed since then"""
+        Gv = eng.seq_V(G, fr)
+        iv = eng.as_int(i, fr)
+        base = fr.st.snaps.get("listed")
+        if base is None:
+            raise Unsupported("no snapshot 'listed'")
+        g0, g1 = base.ghost, fr.st.ghost
+        same_at = R.symbols["same_at"]
+        k = z3.Int(fresh_name("k"))
+        q = z3.Const(fresh_name("q"), V)
+        p = T.sget(Gv, k)
+        listed = z3.ForAll([k], z3.Implies(z3.And(0 <= k, k < T.slen(Gv)), z3.If(k < iv, z3.Not(z3.Select(g1["FS_ex"].t, p)), same_at(g0, g1, p))), patterns=[T.sget(Gv, k)])
+        others = z3.ForAll([q], z3.Implies(z3.Not(T.sin(Gv, q)), same_at(g0, g1, q)),
+                           patterns=[T.sin(Gv, q), z3.Select(g1["FS_ex"].t, q), z3.Select(g1["FS_ct"].t, q), z3.Select(g1["FS_ok"].t, q)])
+        return mk_bool(z3.And(listed, others))
+    S["ListedResultsRemoved"] = no_results_listed_left
+
+    def no_result_files(eng, fr, loc):
+        b = z3.Int(fresh_name("b"))
+        p = S["ResultPath"](eng, fr, loc, mk_int(b)).t
+        return mk_bool(z3.ForAll([b], z3.Implies(b >= 1, z3.Not(z3.Select(fr.st.ghost["FS_ex"].t, p))), patterns=[p]))
+    S["NoResultFiles"] = no_result_files
+
+    R.add(K + "Crop.sow_samples", cls="Crop", result="none", props=["C15", "C10", "C06"],
+          modifies=["*"],
+          hooks={"skip_call_pre": {"Crop.sow_cases": [], "Sampler.gen_cases_fnargs": []}},
+          loops={"loop0": dict(idx="_r", modifies=["ghost:FS", "result_file"], ghost_init=["snap('listed')"], inv=[
+              ("stale_results_removed_so_far", "ListedResultsRemoved(self.location, __globbed__, _r)")])},
+          cuts={"after:loop0": dict(inv=[("no_result_of_an_earlier_sowing_survives", "NoResultFiles(self.location)")])},
+          trace=[("sows_once_with_the_given_constants", "ncalled('Crop.sow_cases') == 1 and call_arg('Crop.sow_cases', 'constants') == constants")],
+          raises={"AnyError": dict()})
+    return R
